@@ -11,7 +11,7 @@ EXTENDS MC_ZoneStore, IOUtils
 TRec == ndJsonDeserialize(IOEnv.TRACE)
 
 VARIABLES l,
-  cands,     \* reader -> store states that existed since its query began ({} = no query open)
+  cands,     \* reader -> unversioned parts of the tree states that existed since its query began ({} = no query open)
   prev,      \* store before the last write operation
   wpend      \* a write operation has begun and not yet ended
 tvars == <<vars, l, cands, prev, wpend>>
@@ -23,7 +23,7 @@ AnsOf(j) == [rcode |-> j.rcode, aa |-> j.aa, ans |-> RecsOf(j.ans), auth |-> Rec
 
 Witness(v, qn, qt, a) ==
   IF a \in Admissible(v, qn, qt) THEN TRUE
-  ELSE PrintT("WITNESS " \o ToJson([blame |-> Blame(v, qn, qt), qn |-> qn, qt |-> qt, v |-> v, l |-> l]))
+  ELSE PrintT("WITNESS " \o ToJson([blame |-> BlameOf(v, qn, qt, a), qn |-> qn, qt |-> qt, v |-> v, l |-> l]))
 
 \* C09: the answer differs from what the version answered when it was published
 Witness9(v, qn, qt, a) ==
@@ -37,14 +37,19 @@ AnswersOk(SS, v, qn, res) ==
        /\ \E S \in SS : a \in ConcreteAnswer(S, v, qn, res[i][1], Dev)
        /\ (v \in 0..current => Witness(v, qn, res[i][1], a) /\ Witness9(v, qn, res[i][1], a))
 
+Shared(S) == [nodes |-> S.nodes, ent |-> S.ent, born |-> S.born]
 Step(A) == l <= Len(TRec) /\ l' = l + 1 /\ A
 Quiet(A) == Step(A /\ UNCHANGED <<cands, prev, wpend>>)
 \* a step that changes the shared tree: every open query may see the new state
 Writes(A, pending) ==
   Step(/\ A
-       /\ cands' = [r \in Readers |-> IF cands[r] = {} THEN {} ELSE cands[r] \cup {store'}]
+       /\ cands' = [r \in Readers |-> IF cands[r] = {} THEN {} ELSE cands[r] \cup {Shared(store')}]
        /\ prev' = store /\ wpend' = pending)
-Seen(r) == cands[r] \cup {store}
+\* A pinned reader's version is never rewritten (writers write above
+\* `current`), so the tree states it may have seen differ from the present
+\* one only in the parts that are NOT versioned: the children maps and the
+\* RRset map entries.  Remembering those keeps the trace states small.
+Seen(r) == {[store EXCEPT !.nodes = c.nodes, !.ent = c.ent, !.born = c.born] : c \in cands[r]} \cup {store}
 
 TNext ==
   \/ Quiet(Ev.a = "ZfInsert" /\ ZfInsert(<<Ev.n, Ev.t, Ev.x>>))
@@ -68,7 +73,7 @@ TNext ==
   \/ Quiet(Ev.a = "ReaderRelease" /\ ReaderRelease(Ev.r))
   \* begin of a query / walk (real-thread traces)
   \/ Step(/\ Ev.a = "QBegin" /\ readers[Ev.r] # -1
-          /\ cands' = [cands EXCEPT ![Ev.r] = {store} \cup (IF wpend THEN {prev} ELSE {})]
+          /\ cands' = [cands EXCEPT ![Ev.r] = {Shared(store)} \cup (IF wpend THEN {Shared(prev)} ELSE {})]
           /\ UNCHANGED <<vars, prev, wpend>>)
   \/ Step(/\ Ev.a = "ReaderQuery" /\ ReaderQuery(Ev.r, Ev.qn)
           /\ AnswersOk(Seen(Ev.r), readers[Ev.r], Ev.qn, Ev.res)
@@ -78,9 +83,9 @@ TNext ==
           /\ cands' = [cands EXCEPT ![Ev.r] = {}] /\ UNCHANGED <<prev, wpend>>)
   \* a query by a reader obtained and dropped on the spot (single-threaded traces)
   \/ Quiet(/\ Ev.a = "FreshQuery" /\ phase = "live" /\ AnswersOk({store}, current, Ev.qn, Ev.res)
-           /\ act' = [a |-> "FreshQuery"] /\ UNCHANGED svars)
+           /\ act' = [a |-> "FreshQuery"] /\ UNCHANGED <<svars, snap>>)
   \/ Quiet(/\ Ev.a = "FreshWalk" /\ phase = "live" /\ RecsOf(Ev.res) = WalkOf(store, current, Dev)
-           /\ act' = [a |-> "FreshWalk"] /\ UNCHANGED svars)
+           /\ act' = [a |-> "FreshWalk"] /\ UNCHANGED <<svars, snap>>)
 
 TInit == Init /\ l = 1 /\ cands = [r \in Readers |-> {}] /\ prev = store /\ wpend = FALSE
 TSpec == TInit /\ [][TNext]_tvars
